@@ -7,7 +7,7 @@ import os
 import time
 from pathlib import Path
 
-from experimaestro import Config, Meta, Param, Task
+from experimaestro import Config, LightweightTask, Meta, Param, Task
 
 
 def _append(path, line):
@@ -134,3 +134,11 @@ class SlowOut(Task):
     def execute(self):
         _append(self.ctl / "events.log", f"begin {self.tag} {os.getpid()}")
         _append(self.ctl / "events.log", f"end {self.tag} {os.getpid()} ok")
+
+
+class PreT(LightweightTask):
+    """a pre-task (executed in the job process before the body)"""
+    v: Param[int]
+
+    def execute(self):
+        pass
